@@ -735,7 +735,7 @@ def magic_rule(ctx):
             o0 = fa.origin(cur)
             if o0[0] == "call":
                 n0 = {strip_generics(x).rsplit("::", 1)[-1] for x in callee_paths(o0[2])}
-                if any("BufReader" in x or "Take" in x or "Chain" in x for x in callee_paths(o0[2])) and n0 & {"new", "with_capacity", "take", "chain"}:
+                if any("BufReader" in x for x in callee_paths(o0[2])) and n0 & {"new", "with_capacity"}:
                     wrapped.append("%s at %s" % (sorted(n0)[0], fa.loc(o0[1])))
                     break
                 if not o0[2]["args"]:
